@@ -114,7 +114,7 @@ def r01_3(ctx):
     reprs = struct_local(d, 'wire::tcp::Repr')
     ctx.need(len(reprs) >= 1, "TcpRepr local in dispatch")
     sites = [x for x in d.calls() if (d.callee_name(x[1]) or '').endswith('::get_allocated')]
-    ctx.need(len(sites) == 2, "two tx_buffer.get_allocated sites in tcp::dispatch")
+    ctx.need(len(sites) >= 2, "tx_buffer.get_allocated sites in tcp::dispatch (normal path, retransmission from SND.UNA)")
     for x in sites:
         bi = x[0]
         si = len(d.blocks[bi]['s'])
@@ -127,7 +127,7 @@ def r01_3(ctx):
         seq = seqs[0]
         if const_int(off) == 0:
             good = all(is_field(a, S, 'local_seq_no') for a in alts(seq))
-            kind = 'fast-retransmit'
+            kind = 'from SND.UNA (fast retransmit / probe with data in flight)'
         elif is_call(off, 'flight_size'):
             good = all(is_field(a, S, 'remote_last_seq') or is_field(a, S, 'local_seq_no') for a in alts(seq)) and \
                 any(is_field(a, S, 'remote_last_seq') for a in alts(seq))
